@@ -95,7 +95,8 @@ def sizing_replay(ctx, thorough, rnd):
             ctx.add_class("sizing|%d|%s" % (len(s["prog"]), "".join(i["k"][0] for i in s["prog"])))
         ctx.add_suite("sizing-hook-traces", len(strs), len(strs), time.time() - t0, {"traces_without_hook_events": nohook})
         if nohook:
-            ctx.notes.append("sizing hooks missing in %d traces (weaker binding)" % nohook)
+            raise tlc.MachineryError("sizing-loop hook events missing in %d of %d accepted assemblies: the binding of AsmSizing to translate_statements is gone "
+                                     "(hooks removed or COCOASM_VERIF not honoured)" % (nohook, len(strs)))
         ctx.sample({"suite": "sizing-hook-traces", "items": strs[len(strs) // 2]["prog"], "events": strs[len(strs) // 2]["events"][:6]})
 
 
